@@ -33,6 +33,12 @@ func (runInfo *runInfoStruct) funcExpr() {
 		if len(runInfo.defers) > 0 {
 			runInfo.runDefers()
 		}
+		if runInfo.err == ErrInterrupt {
+			// keep the identity of ErrInterrupt so that the caller's try and ?? do not take it for a script error
+			errV := reflect.New(errorType).Elem()
+			errV.Set(reflect.ValueOf(ErrInterrupt))
+			return nilValue, errV
+		}
 		if runInfo.err != nil && runInfo.err != ErrReturn {
 			return nilValue, reflect.ValueOf(newError(funcExpr, runInfo.err))
 		}
